@@ -806,7 +806,7 @@ func short(k string) string {
 // findingShape recognises the exact input shapes of the known findings of this property (see the report):
 //   - a REQUIRED pod-affinity term with a nil label selector on a pod that was placed (F12);
 //   - a DoNotSchedule spread constraint honouring node affinity on a pod that restricts a well-known label
-//     (zone) itself, placed on a new node next to another pod its selector selects (F13);
+//     (zone) itself, while another pod its selector selects was placed on a new node (F13);
 //   - REQUIRED pod-affinity on a non-hostname key whose selector selects the pod itself, with two such pods
 //     on different new nodes that do not share one determined domain (F11).
 func findingShape(sc sCase, newDomains map[string]map[string][]string) string {
@@ -822,8 +822,7 @@ func findingShape(sc sCase, newDomains map[string]map[string][]string) string {
 		}
 	}
 	for _, sp := range sc.Batch {
-		myNode, ok := placedNode(sp)
-		if !ok || !strings.HasPrefix(myNode, "new-") {
+		if _, ok := placedNode(sp); !ok {
 			continue
 		}
 		restricts := sp.NodeSel[zoneKey] != "" || len(sp.ZoneIn) > 0 || len(sp.ZoneNotIn) > 0
@@ -833,7 +832,7 @@ func findingShape(sc sCase, newDomains map[string]map[string][]string) string {
 			}
 			for _, other := range sc.Batch {
 				on, ok := placedNode(other)
-				if ok && on == myNode && other.Name != sp.Name && other.NS == sp.NS && selMatches(c.Sel, other.Labels) {
+				if ok && strings.HasPrefix(on, "new-") && other.Name != sp.Name && other.NS == sp.NS && selMatches(c.Sel, other.Labels) {
 					return kfSpreadFilter
 				}
 			}
